@@ -138,10 +138,18 @@ def r_C03bc(root):
     dt = find(load(root, L), "TextXVisitor._determine_rule_types._determine_rule_type"); inst += 1
     upd = [c for c in calls(dt) if (callee_name(c) == "append" and "_tx_inh_by" in ast.unparse(c.func.value)) or callee_name(c) == "_add_reffered_classes" and enclosing_func(c) is dt]
     if not upd: raise AnalysisError("_tx_inh_by updates not found")
+    import re as _re
+    from sa import sem as _sem
+    fidt = _sem.info(dt); p0 = dt.args.args[0].arg
     for c in upd:
         g = [ast.unparse(t).replace(" ", "") for t, pol in guards(c) if pol]
         if any("cls._tx_type!=RULE_ABSTRACT" in t for t in g):
             out.append(Finding("C03", "C03.b", L, "_determine_rule_type", ast.unparse(stmt_of(c))[:80], "inheritance list is extended only when the class first becomes abstract; referenced classes typed in later passes are lost (cyclic rules)", witness="A: 'a' B | X; B: 'b' A | Y;")); break
+        # the update must not depend (through any branch or early exit) on the type recorded for this class in an earlier pass
+        dep = [(a, pol) for a, pol in fidt.atoms_at(c) if _re.search(r"(?<![\w.])%s\._tx_type\b" % _re.escape(p0), a)]
+        ob("C03", "C03.b", L, "_determine_rule_type", "inheritance update %s independent of the recorded type of %s" % (" ".join(ast.unparse(c).split())[:50], p0), not dep)
+        if dep:
+            out.append(Finding("C03", "C03.b", L, "_determine_rule_type", "%s under %s%s" % (" ".join(ast.unparse(c).split())[:50], "" if dep[0][1] else "not ", dep[0][0]), "whether the inheritance list of a class is recomputed depends on the type recorded for it in an earlier pass: classes that referenced rules gain in later passes (circular references) are never added", witness="Q: P | V; P: X | W; X: '(' Q ')' | KW;")); break
     ti = find(load(root, M), "textx_isinstance"); inst += 1
     rec = [c for c in calls(ti) if callee_name(c) == "textx_isinstance"]
     if rec and not any("visited" in ast.unparse(t) or " not in " in ast.unparse(t) for c in rec for t, pol in guards(c)):
@@ -162,17 +170,22 @@ def r_C02ab(root):
         n = fi.node_of(at); ds = rd.defs_of(n, name_node.id)
         return name_node.id == param and ds and all(cfg.nodes[d].kind == "entry" for d in ds)
     def merges_back(copy_name, after_call):
-        """after the call, some statement updates the ORIGINAL accumulator from the copy (directly or through a list the copy was appended to)"""
-        carriers = {copy_name}
+        """after the call, some statement updates the ORIGINAL accumulator from the copy — for the copy of EVERY iteration when
+        the call sits in a loop over the alternatives: either the merge is inside that loop, or the copy is put into a
+        carrier list inside the loop and the carrier is merged (anywhere after)"""
+        lp = next((a for a in ancestors(after_call) if isinstance(a, (ast.For, ast.While)) and enclosing_func(a) is up), None)
+        inside = (lambda n: lp is None or any(a is lp for a in ancestors(n)))
+        carriers = set()
         for n in own_nodes(up):
-            if isinstance(n, ast.Call) and isinstance(n.func, ast.Attribute) and n.func.attr in ("append", "add") and any(isinstance(a, ast.Name) and a.id == copy_name for a in n.args) and isinstance(n.func.value, ast.Name):
+            if isinstance(n, ast.Call) and isinstance(n.func, ast.Attribute) and n.func.attr in ("append", "add") and any(isinstance(a, ast.Name) and a.id == copy_name for a in n.args) and isinstance(n.func.value, ast.Name) and inside(n):
                 carriers.add(n.func.value.id)
         for n in own_nodes(up):
             tgt = None; srcs = []
             if isinstance(n, ast.Call) and isinstance(n.func, ast.Attribute) and n.func.attr in ("update", "__ior__") and isinstance(n.func.value, ast.Name): tgt, srcs = n.func.value, n.args
             elif isinstance(n, ast.AugAssign) and isinstance(n.op, ast.BitOr) and isinstance(n.target, ast.Name): tgt, srcs = n.target, [n.value]
             if tgt is None: continue
-            if not any(isinstance(x, ast.Name) and x.id in carriers for a in srcs for x in ast.walk(a)): continue
+            used = {x.id for a in srcs for x in ast.walk(a) if isinstance(x, ast.Name)}
+            if not ((copy_name in used and inside(n)) or (used & carriers)): continue
             st = stmt_of(n)
             if tgt.id == param and is_original(ast.Name(id=param), st): return True
         return False
